@@ -14,8 +14,11 @@
 
 namespace BtcVerif.Spec.Bech32
 
-/-- BIP173 "Bech32": the 32 data characters, value = position -/
-def charset : List Char := "qpzry9x8gf2tvdw0s3jn54khce6mua7l".toList
+/-- BIP173 "Bech32": the 32 data characters, value = position
+    (`qpzry9x8gf2tvdw0s3jn54khce6mua7l`) -/
+def charset : List Char :=
+  ['q', 'p', 'z', 'r', 'y', '9', 'x', '8', 'g', 'f', '2', 't', 'v', 'd', 'w',
+   '0', 's', '3', 'j', 'n', '5', '4', 'k', 'h', 'c', 'e', '6', 'm', 'u', 'a', '7', 'l']
 
 /-- BIP173 "Checksum": the five generator constants -/
 def generator : List Nat := [0x3b6a57b2, 0x26508e6d, 0x1ea119fa, 0x3d4233dd, 0x2a1462b3]
